@@ -120,13 +120,13 @@ Example c06_nonvacuous :
   ncreates 0 (glog (fst (fst ex_race))) = 1%nat /\
   In (1%nat, KOpen, ROk 0%nat (mk_cfg (defs PubSub) reqA KCreate)) (glog (fst (fst ex_race))).
 Proof.
-  split; [exists race_sched; reflexivity|]. vm_compute. repeat split; auto 10.
+  split; [unfold ex_race; apply reachable_run|]. vm_compute. repeat split; auto 10.
 Qed.
 Print Assumptions c06_nonvacuous.
 
 (* a verification failure is reachable: opener asks for 2 publishers, the service has 1 *)
 Example c06_incompatible_nonvacuous :
-  let c := fst (run (step P9) (repeat 0 20 ++ repeat 1 7)%nat (init (progs2 [OCreate reqA] [OOpen reqB]))) in
+  let c := fst (run (step P9) (repeat 0 20 ++ repeat 1 6)%nat (init (progs2 [OCreate reqA] [OOpen reqB]))) in
   exists j x, at_pc (snd c 1%nat) = PRead j /\ get_inst (fst c) j = Some x /\
     open_check (i_cfg x) (the_req (snd c 1%nat)) KOpen = Some DoesNotSupportRequestedAmountOfPublishers.
 Proof. vm_compute. exists 0%nat. eexists. repeat split. Qed.
@@ -163,7 +163,7 @@ Theorem c06_terminates_refuted : ~ c06_terminates_full.
 Proof.
   intros H.
   destruct (H P9 (progs2 [OCreate reqSlice0] []) panic_cfg 0%nat) as [_ Hp].
-  - exists panic_sched; reflexivity.
+  - unfold panic_cfg; apply reachable_run.
   - intros [|[|t']]; cbn; auto.
   - apply Hp. destruct c06_create_panics as (E & _). rewrite E. left; auto.
 Qed.
@@ -176,10 +176,11 @@ Theorem c06_terminates_spin_refuted :
 Proof.
   intros H.
   destruct (H P0 (progs2 [OCreate reqA] [OOpen reqU]) spin_cfg 1%nat) as (k & Hk & Hf).
-  - exists spin_sched; reflexivity.
+  - unfold spin_cfg; apply reachable_run.
   - intros [|[|t']]; cbn; auto.
   - pose proof c06_open_spin_refuted as Hs. rewrite forallb_forall in Hs.
-    specialize (Hs k). rewrite Hf in Hs. cbn in Hs. assert (false = true) by (apply Hs; apply in_seq; lia). discriminate.
+    assert (Hin : In k (seq 0 (S (solo_bound P0)))) by (apply in_seq; lia).
+    specialize (Hs k Hin). rewrite Hf in Hs. discriminate.
 Qed.
 Print Assumptions c06_terminates_spin_refuted.
 
@@ -213,7 +214,7 @@ Definition bb_cfg := fst (run (step P9) bb_sched (init (progs2 [OCreate reqBb] [
 Theorem c06_no_spurious_corruption_refuted : ~ c06_no_spurious_corruption_full.
 Proof.
   intros H. apply (H P9 (progs2 [OCreate reqBb] [OOpen reqBb]) (fst bb_cfg) (snd bb_cfg) 1%nat).
-  - exists bb_sched. unfold bb_cfg. destruct (run _ _ _) as [[g ls] tr]. reflexivity.
+  - unfold bb_cfg. apply reachable_run_pair.
   - vm_compute. left; reflexivity.
 Qed.
 Print Assumptions c06_no_spurious_corruption_refuted.
@@ -240,7 +241,7 @@ Proof.
   intros H.
   assert (Hq : quiescent (snd panic_cfg)) by (intros [|[|t]]; vm_compute; reflexivity).
   assert (Hr : reachable (step P9) (init (progs2 [OCreate reqSlice0] [])) (fst panic_cfg, snd panic_cfg)).
-  { exists panic_sched. unfold panic_cfg. destruct (run _ _ _) as [[g ls] tr]. reflexivity. }
+  { unfold panic_cfg. apply reachable_run_pair. }
   assert (Hi : exists x, get_inst (fst panic_cfg) 0%nat = Some x /\ i_dy_linked x = true /\ i_members x = []).
   { eexists. vm_compute. repeat split. }
   destruct Hi as (x & Hx & Hl & Hm).
